@@ -2,12 +2,14 @@
 """tools/seed_prompt.py Cxx N -> prints the seeder prompt for property Cxx (creates nothing)."""
 import json, sys
 pid, n = sys.argv[1], sys.argv[2]
+start = int(sys.argv[3]) if len(sys.argv) > 3 else 1
 wt = f'/tmp/seed-{pid}'
 out = f'/tmp/seedout'
 for l in open('/verif/properties.jsonl'):
     p = json.loads(l)
     if p['id'] == pid:
         t = open('/verif/docs/SEEDER_PROMPT.txt').read()
+        t = t.replace('k = 1..{N}', 'k = %d..%d' % (start, start + int(n) - 1))
         for k, v in {'{WT}': wt, '{ID}': pid, '{TITLE}': p['title'], '{STATEMENT}': p['statement'],
                      '{QUANT}': p['quantifier']['text'], '{ANCHORS}': json.dumps(p['anchors']), '{N}': n, '{OUT}': out,
                      '{MIN}': str(15 * int(n))}.items():
